@@ -78,6 +78,7 @@ def main():
         det[p] = {"fired": fired, "rc": rc, "violations": [ln.strip()[len("violation: "):] for ln in out.splitlines() if ln.strip().startswith("violation:")][:8]}
     meta["checks"] = det
     meta["detected_by"] = sorted(p for p, d in det.items() if d["fired"])
+    meta["as_delivered"] = "caught" if pid in meta["detected_by"] else "missed"
     notes = open(os.path.join(src, "notes.md")).read() if os.path.exists(os.path.join(src, "notes.md")) else ""
     m = re.search(r"(?is)(needs|manifest|trigger)[^\n]*\n(.{0,600})", notes)
     meta["needs_to_manifest"] = "see notes.md"
